@@ -28,6 +28,12 @@ func (cb *CBLC) parseIndexSubTables(src []byte) error {
 		for j, subtable := range subtables.Subtables {
 			numGlyphs := int(subtable.LastGlyph) - int(subtable.FirstGlyph) + 1
 			subtableStart := start + int(subtable.additionalOffsetToIndexSubtable)
+			if numGlyphs <= 0 {
+				return fmt.Errorf("invalid bitmap index subtable glyph range [%d, %d]", subtable.FirstGlyph, subtable.LastGlyph)
+			}
+			if L := len(src); L < subtableStart {
+				return fmt.Errorf("EOF: expected length: %d, got %d", subtableStart, L)
+			}
 
 			sizeSubtables[j].FirstGlyph = subtable.FirstGlyph
 			sizeSubtables[j].LastGlyph = subtable.LastGlyph
